@@ -3,7 +3,7 @@ HOOKS = {
     "guard": "verif",
     "enable": "go build -tags verif (bin/check); C07 additionally overlays an instrumented copy of sequencer.go through go build -overlay",
     "baseline_off_cmd": "cd /repo && go test -mod=mod -json -vet=off -count=1 -timeout 25m ./...",
-    "source_commits": [],
+    "source_commits": ["00de0fa"],
     "add_only": True,
 }
 ENGINES = [
@@ -55,3 +55,8 @@ claim("C02", "DESIGN.md 5 C02",
       "Exhaustive enumeration of hostile inputs: every first byte x every total length up to what it claims + 6; X=1 images with every body string up to 4 (quick) / 5 (thorough) bytes over a 13-symbol alphabet x profile x length-field lies x P bit x 9 tails x CSRC count (29 M images quick); every truncation and single-byte mutation of the C01 reduced space images (34 M); each decoded by Header.Unmarshal and Packet.Unmarshal and checked for no panic, header length inside the input, lengths adding up, payload and every extension value being sub-slices of the input by ADDRESS in increasing order. Reuse: all ordered pairs of a ~200-input corpus (one per outcome class) and all triples over its first 40/90, decoded into one receiver and compared (return values, all RFC fields, re-marshalled bytes) with a fresh receiver.",
       "Result of a reused receiver excludes state after a failed decode, nil-vs-empty, capacities and a stale ExtensionProfile while X is clear (DESIGN.md 5.0).",
       "bounded exhaustive enumeration of inputs and decode histories with a fresh-twin differential oracle (explicit choice-tree DFS on the real code)")
+
+claim("C07", "DESIGN.md 2.3, 5 C07",
+      "Sequential: ALL 65536 start values of NewFixedSequencer driven through the first wrap (+3 calls; three wraps in thorough) with successor and RollOverCount checked, and ALL 32767 answers of the random generator for NewRandomSequencer. Concurrent: the working tree's sequencer.go is rewritten at check time (sync -> controlled shim, yield before every statement, access report for every field) and EVERY interleaving of 2- and 3-thread harnesses (every assignment of 1-3 operation lists over {Next, RollOverCount}, start values around the wrap) is executed under the cooperative scheduler, iterated over preemption bounds 0,1,2 and then unbounded; every complete execution is checked for deadlock, linearizability against the counter model (porcupine), no duplicate / no gap, and by a vector-clock happens-before race oracle over all reported accesses.",
+      "Interleaving at statement granularity plus the happens-before oracle stand for the Go memory model; cross-checked by a free-running go test -race pass of the same bodies with the real sync package (supplementary, decides nothing alone). More than 3 threads / 3 operations per thread is outside the bound.",
+      "stateless model checking of the real code under a controlled scheduler (all interleavings, iterative preemption bounding) + linearizability checking + happens-before race oracle")
